@@ -46,7 +46,7 @@ class KaniUnit:
     def attr(self, relpath, ty, fn, text, trait=None):
         self.attrs.append((relpath, ty, fn, trait, text))
 
-    def harness(self, name, obligation, kind='complete', bound=None, props=None, tier='quick', timeout=300, unwind=None, note='', stubs=False):
+    def harness(self, name, obligation, kind='complete', bound=None, props=None, tier='quick', timeout=900, unwind=None, note='', stubs=False):
         self.harnesses.append(dict(name=name, obligation=obligation, kind=kind, bound=bound, props=props or self.props, tier=tier,
                                    timeout=timeout, note=note))
 
